@@ -1541,3 +1541,36 @@ Fixpoint gather (names : list (list Z)) (given : list (list Z * list Z)) : optio
 Definition session (fuel : nat) (fixed : bool) (p : prog) (given : list (list Z * list Z)) (segs : list seg) : sres :=
   run_segs fuel fixed p (match gather (p_ins p) given with Some i => Some (mkEnv i) | None => None end)
            segs (init_machine p) [].
+
+(* ================================================================== compositions of API calls used in the statements *)
+(* resume through pauses until the program is done, halted or in error; at most n resume calls *)
+Fixpoint complete (n fuel : nat) (fixed : bool) (p : prog) (e : env) (m : machine) : result machine :=
+  match n with
+  | O => OutOfFuel
+  | S k => if can_go m then
+             match api_resume fuel fixed p e m with
+             | Ok m1 => complete k fuel fixed p e m1
+             | other => other
+             end
+           else Ok m
+  end.
+
+(* a client that only calls step / resume while the machine can go on *)
+Inductive gseg := GStep | GResume (fuel : nat).
+
+Definition apply_seg (fixed : bool) (p : prog) (e : env) (s : gseg) (m : machine) : result machine :=
+  if can_go m then
+    match s with GStep => api_step fixed p e m | GResume fuel => api_resume fuel fixed p e m end
+  else Ok m.
+
+Fixpoint apply_segs (fixed : bool) (p : prog) (e : env) (segs : list gseg) (m : machine) : result machine :=
+  match segs with
+  | [] => Ok m
+  | s :: rest => match apply_seg fixed p e s m with
+                 | Ok m1 => apply_segs fixed p e rest m1
+                 | other => other
+                 end
+  end.
+
+Definition iter_step (fixed : bool) (p : prog) (e : env) (k : nat) (m : machine) : result machine :=
+  apply_segs fixed p e (repeat GStep k) m.
